@@ -868,10 +868,10 @@ private:
         {}
 
         // old_size holds the size observed before a successful exchange
-        if (old_size < new_size) {
-            return internal_grow(old_size, new_size, args...);
-        }
+        const bool appended = old_size < new_size;
+        iterator first_appended = appended ? internal_grow(old_size, new_size, args...) : iterator(*this, 0);
 
+        // Segments below old_size may still be under allocation by concurrent growth calls
         size_type end_segment = this->segment_index_of(new_size - 1);
 
         // Check/wait for segments allocation completes
@@ -894,7 +894,7 @@ private:
         size_type cap = capacity();
         __TBB_ASSERT( cap >= new_size, nullptr);
     #endif
-        return iterator(*this, size());
+        return appended ? first_appended : iterator(*this, size());
     }
 
     template <typename... Args>
